@@ -12196,3 +12196,37 @@ func ruleVerifyBudgetCoversSignature(c *Ctx) {
 		c.Fail("verify-budget-covers-signature", "pkg/network/extpool", fmt.Sprintf("extpool verifies the witness of every extensible payload with %d GAS units, a signature check costs ECDSAVerifyPrice (%d) times the execution fee factor, and the committee may raise the factor to %d: %d does not fit. Once the factor is raised past %d every honestly signed consensus payload - a node's own too - is refused by the pools of all nodes, no block is produced any more, and without a block the factor cannot be lowered", budget, price, factor, price*factor, budget/price))
 	}
 }
+
+// ruleCompletionAfterProgress (C20): the stage of the state synchronisation moves on when the pool of unknown nodes is
+// found empty after a batch ("Count() == 0" at the tail of AddMPTNodes). A batch is processed node by node and the
+// nodes restored before a bad one may be the last ones the pool was waiting for; nobody sends MPT data to a node that
+// asks for none (GetUnknownMPTNodesBatch is empty), so the test is never made again and the node neither asks for
+// blocks nor leaves the stage. In every method of the module that restores nodes and tests the pool for emptiness, each
+// exit reachable from the restoring call passes the emptiness test first.
+func ruleCompletionAfterProgress(c *Ctx) {
+	n := 0
+	for _, fd := range c.P.AllFuncDecls() {
+		if pkgRel(fd.Pkg.Types) != "pkg/core/statesync" || fd.Decl.Recv == nil || fd.Decl.Body == nil {
+			continue
+		}
+		f := c.P.NewFuncCFG(fd)
+		restores := f.CallSites("pkg/core/statesync.(*Module).restoreNode")
+		counts := f.CallSites("pkg/core/statesync.(*Pool).Count")
+		if len(restores) == 0 || len(counts) == 0 {
+			continue
+		}
+		n++
+		var from []*cfg.Block
+		for _, s := range restores {
+			from = append(from, s.blk)
+		}
+		key := "completion-after-progress:" + FuncKey(fd.Obj)
+		ok, path := f.mustBefore(from, f.Returns(), counts, nil)
+		if ok {
+			c.OK(key, c.P.Pos(restores[0].call.Pos()), "every exit after a node was restored passes the test of the pool for emptiness")
+		} else {
+			c.Fail(key, c.P.Pos(restores[0].call.Pos()), shortSym(FuncKey(fd.Obj))+" can return after restoring nodes without testing whether the pool of unknown nodes became empty ("+strings.Join(path, " -> ")+"): when the restored nodes were the last ones missing, the module stays in the MPT stage with nothing to ask for, nobody sends it MPT data again and it never asks for blocks")
+		}
+	}
+	c.Floor("completion-after-progress.methods", n, 1)
+}
